@@ -378,6 +378,20 @@ func runC20(c *core.Ctx) {
 			}
 		}
 	}
+	// the small-scope type systems, each definition (or site) in a file of its own, and the scale family
+	for _, ch := range schemaSmallScopeChunks() {
+		var keep []string
+		for _, x := range ch {
+			if strings.TrimSpace(x) != "" {
+				keep = append(keep, x)
+			}
+		}
+		loads = append(loads, lc{keep})
+	}
+	for _, t := range ScaleSchemasUpTo(300, 4097) {
+		loads = append(loads, lc{[]string{t}})
+	}
+	nSch = len(loads)
 	c.Pool.ParFor(nSch, func(w, i int) {
 		files := map[string]string{"prelude.graphql": "\x00builtin"}
 		var ss []*ast.Source
